@@ -431,6 +431,71 @@ func c17Downsample(c *Ctx) {
 		}
 	}
 	c.Check(ok, key, rule, "pass-through first; <3 rejected after; capacity threshold", why, c.fnAt(fn))
+
+	// every sample is an element of what the iterator produced (never a synthesised point)
+	const rMem = "every point Downsample appends to its result is an element of a slice obtained from the iterator (directly, or picked by sample(), which returns an element of its `current` argument): the output is made of input points only"
+	keyM := "lttb-members:lib/lttb.Downsample"
+	smp := c.P.Func("lib/lttb", "sample")
+	okM, whyM := smp != nil, "lttb.sample not found"
+	fromIter := func(v ssa.Value) bool {
+		return flowsFrom(v, func(x ssa.Value) bool {
+			ex, isEx := x.(*ssa.Extract)
+			if !isEx || ex.Index != 0 {
+				return false
+			}
+			call, isCall := ex.Tuple.(*ssa.Call)
+			return isCall && call.Call.Value == ssa.Value(fn.Params[2])
+		})
+	}
+	nApp := 0
+	if okM {
+		eachInstr(fn, func(i ssa.Instruction) {
+			call, isCall := i.(*ssa.Call)
+			if !isCall || callName(&call.Call) != "builtin:append" {
+				return
+			}
+			el, isEl := sliceElems(call.Call.Args[1])
+			if !isEl || len(el) != 1 {
+				okM, whyM = false, "an append with unknown elements"
+				return
+			}
+			nApp++
+			e := el[0]
+			if sc, isS := e.(*ssa.Call); isS && sc.Call.StaticCallee() == smp {
+				if !fromIter(sc.Call.Args[1]) {
+					okM, whyM = false, "sample() does not pick from the iterator's current bucket"
+				}
+				return
+			}
+			ld, isL := isLoad(e)
+			if !isL {
+				okM, whyM = false, "a synthesised point is appended"
+				return
+			}
+			ia, isIA := ld.X.(*ssa.IndexAddr)
+			if !isIA || !fromIter(ia.X) {
+				okM, whyM = false, "an appended point does not come from the iterator"
+			}
+		})
+		// sample returns current[index]
+		okS := false
+		eachInstr(smp, func(i ssa.Instruction) {
+			if r, isR := i.(*ssa.Return); isR {
+				if ld, isL := isLoad(r.Results[0]); isL {
+					if ia, isIA := ld.X.(*ssa.IndexAddr); isIA && ia.X == ssa.Value(smp.Params[1]) {
+						okS = true
+					}
+				}
+			}
+		})
+		if !okS {
+			okM, whyM = false, "sample() does not return an element of its current bucket"
+		}
+		if nApp < 3 {
+			okM, whyM = false, "first / bucket / last samples are not all appended"
+		}
+	}
+	c.Check(okM, keyM, rMem, "first, per-bucket pick and last are all iterator elements", whyM, c.fnAt(fn))
 }
 
 func c17Labeler(c *Ctx) {
